@@ -40,11 +40,11 @@ CLAIMED = {
         note="Trusted: the trace transformation (slot renaming for re-binding) and the alignment of observations between base and perturbed run.",
         tech=TECH + "relational oracle: base run vs lifetime-perturbed replays, bitwise"),
     "C14": dict(cat="exploration", ref="DESIGN.md §6 C14",
-        text="Training histories on the real Model/Dense/Conv/GradientDescent/cost code (seeded stacks of 1-3 layers, all activations, both costs, batch absent/1/>1 changing between iterations, forward twice, retained old outputs, model torn down and rebuilt around the same layers, observers holding parameter handles) interleaved with other actors' calls. Oracle per iteration: returned loss and parameters after update against old - lr * gradient computed by the dual-number reference from the documented formulas (toleranced), and bitwise against the same iteration on a fresh model restarted from the parameter snapshot (F13), plus no gradient left after update.",
+        text="Training histories on the real Model/Dense/Conv/GradientDescent/cost code (seeded stacks of 1-3 layers, all activations, both costs, batch absent/1/>1 changing between iterations, forward twice, retained old outputs, evaluation forwards, several backward calls before one update, frozen parameters, targets broadcast against the output, batched and unbatched input, a persistent optimizer shared by two models, model torn down and rebuilt around the same layers - also between backward and update -, observers holding parameter, input and target handles) interleaved with other actors' calls. Oracle per iteration: returned loss and parameters after update against old - lr * gradient computed by the dual-number reference from the documented formulas (toleranced), and bitwise against the same iteration on a fresh model restarted from the parameter snapshot (F13), plus no gradient left after update.",
         note="Trusted: reference formulas for dense/conv/activations/costs (also C15's statement), the Tap layer (public Layer trait) that snapshots parameter handles at every forward; iterations whose ReLU inputs come within 1e-6 of the kink or whose reference is non-finite are not judged absolutely (counted).",
         tech=TECH + "reference step oracle plus restart-from-snapshot relational oracle per iteration"),
     "C17": dict(cat="exploration", ref="DESIGN.md §6 C17",
-        text="At passes inside interleaved histories (after other passes, clears, drops, flag toggles) the prefix is forked five times: seeds s1, s2, alpha*s1+beta*s2, none, ones. Deposits must combine linearly (exact on integer data, K*eps*Mag otherwise) and backward(None) must equal backward(ones) bitwise. The relation itself quantifies over inputs; what the simulator adds is the history context in which the root's seed selection reads shared pending state.",
+        text="At passes inside interleaved histories (after other passes, clears, drops, flag toggles) the prefix is forked five times: seeds s1, s2, alpha*s1+beta*s2, none, ones (and gamma*s1 with gamma = 2^-60, 2^-30 or 2^30). Deposits must combine linearly (exact on integer data, K*eps*Mag otherwise) and backward(None) must equal backward(ones) bitwise. The relation itself quantifies over inputs; what the simulator adds is the history context in which the root's seed selection reads shared pending state.",
         note="Trusted: forking by replay of the explicit prefix; magnitude of the adjoint from the reference for the tolerance.",
         tech=TECH + "relational oracle: five forks of the same prefix with different seeds"),
     "C18": dict(cat="fault_enumeration", ref="DESIGN.md §6 C18",
@@ -52,7 +52,7 @@ CLAIMED = {
         note="Trusted: the shadow's conservative 'may still be pinned' (dataflow ancestry of every live handle, aliases included).",
         tech=TECH + "lifetime-fault enumeration with sole-ownership probe"),
     "C19": dict(cat="exploration", ref="DESIGN.md §6 C19",
-        text="Two halves. Native: the simulator built against corgi --features f32 runs the seeded histories of every claimed property with all monitors (reference-model, structural and relational; integer data exact up to 2^24, other data within K*eps32*Mag). Cross-build: integer-data histories generated once are executed by the f64 and the f32 binary and their complete logs (event statuses incl. refusals, shapes, values, gradients, ownership probes) must be identical. Restricted to the simulator's histories; the input spaces of the value kernels (C04-C07) under f32 are not decided by this family.",
+        text="Two halves. Native: the simulator built against corgi --features f32 runs the seeded histories of every claimed property with all monitors (reference-model, structural and relational; integer data exact up to 2^24, other data within K*eps32*Mag). Cross-build: integer-data histories generated once are executed by the f64 and the f32 binary and their complete logs (event statuses incl. refusals, shapes, values, gradients, ownership probes) must be identical; on non-integer data the structure of the logs (statuses, ownership-probe outcomes, shapes) must be identical. Restricted to the simulator's histories; the input spaces of the value kernels (C04-C07) under f32 are not decided by this family.",
         note="Trusted: exactness guards (every partial sum times the finest granularity <= 2^24), the pipe protocol between the two binaries. Both binaries are rebuilt from /repo's working tree.",
         tech=TECH + "same explicit traces executed on the f32 and f64 builds, logs compared; all monitors run natively on the f32 build"),
 }
